@@ -41,11 +41,12 @@ def run(ctx):
     # mandatory counts well above the small scope, with bodies that can match the empty string (the unrolled form accepts
     # empty iterations, a counted loop would not) and bodies that cannot
     long_texts = ["", "aaa", "aaaaaaaaaa", "x123; x;", "aab", "abababababab"]
-    for n in (8, 9, 10):
-        for body in ("(maybe 'a')", "'a'", "(at least 0 'a' fewest)", "(maybe digit)", "line start"):
-            extra.append({"src": "find all exactly %d %s" % (n, body), "texts": long_texts})
-            extra.append({"src": "find all 'x' at least %d %s ';'" % (n, body), "texts": long_texts})
-            extra.append({"src": "find all between %d and %d %s 'b'" % (n, n + 2, body), "texts": long_texts})
+    long2 = long_texts + ["a" * 41, "x" + "1" * 20 + ";", "a" * 16 + "b", "a" * 17 + "b", "x" + "a" * 21 + ";", "a" * 15 + "b" + "a" * 22 + "b"]
+    for n in (8, 9, 10, 16, 17, 20):
+        for body in (("(maybe 'a')", "'a'", "(at least 0 'a' fewest)", "(maybe digit)", "line start") if n <= 10 else ("'a'", "(maybe digit)")):
+            extra.append({"src": "find all exactly %d %s" % (n, body), "texts": long_texts if n <= 10 else long2})
+            extra.append({"src": "find all 'x' at least %d %s ';'" % (n, body), "texts": long_texts if n <= 10 else long2})
+            extra.append({"src": "find all between %d and %d %s 'b'" % (n, n + 2, body), "texts": long_texts if n <= 10 else long2})
     # the scan between attempts: every start offset is tried, one byte after the other - also through CR LF pairs, tabs and runs of newlines
     # (line counting steps over them; the search must not)
     crlf_texts = ["a\r\nb", "\r\n", "\r\n\r\n", "a\r\n\r\nb", "\n\r\n", "\r\r\n", "ab\r\ncd\r\n", "\r", "a\rb", "\t\n\ta"]
